@@ -1,4 +1,5 @@
 import GodiProofs.Container.Close
+import GodiProofs.Container.CloseReport
 /-!
 # C12 — Close is complete under errors, reports them, and is idempotent (sequential clauses)
 
@@ -51,7 +52,38 @@ theorem closed_is_disposed (beh : Beh) (order : List Nat → List Nat) (f : Nat)
     (((closeScope beh order (f + 1) st s).1).scope s).instances = none := by
   unfold closeScope; simp [h, dropInstances, updScope]
 
+/-- REPORTS EXACTLY THE FAILURES, the whole subtree: `scope.Close` — for every scope tree, every depth, every
+iteration order of the child tables, every set of failing `Close()` methods and every amount of fuel — appends
+only `closed` events to the log and returns an error exactly when one of the events it appended (its own
+instances' or any descendant's) records a `Close()` that failed -/
+theorem scope_close_reports_exactly_the_failures (beh : Beh) (order : List Nat → List Nat) (f : Nat) (st : State) (s : Nat) :
+    ∃ evs, (closeScope beh order f st s).1.log = st.log ++ evs ∧
+      (∀ e ∈ evs, ∃ o i ok, e = Event.closed o i ok) ∧
+      ((closeScope beh order f st s).2 = true ↔ ∃ o i, Event.closed o i false ∈ evs) :=
+  (close_reported beh order f).1 st s
+
+/-- the same for `provider.Close`: every tracked scope, the root scope and the singletons -/
+theorem provider_close_reports_exactly_the_failures (beh : Beh) (order : List Nat → List Nat) (st : State) :
+    ∃ evs, (closeProvider beh order st).1.log = st.log ++ evs ∧
+      (∀ e ∈ evs, ∃ o i ok, e = Event.closed o i ok) ∧
+      ((closeProvider beh order st).2 = true ↔ ∃ o i, Event.closed o i false ∈ evs) :=
+  closeProvider_reported beh order st
+
 example : (closeLoop { close := fun c _ => c == 2 } 7 {} [5, 6]).2 = false := by decide
 example : (closeLoop { close := fun _ _ => true } 7 {} [5, 6]).1.log = [.closed 7 5 false, .closed 7 6 false] := by decide
+
+-- non-vacuity of `scope_close_reports_exactly_the_failures`: the failing instance belongs to a grandchild (scope 3);
+-- Close of scope 1 reports the error and logs exactly that one event; without the failure it reports nothing
+example :
+    let beh : Beh := { close := fun c _ => c == 9 }
+    let st0 := (buildRuntime beh [] []).1
+    let st1 := (providerCreateScope beh st0 0).1
+    let st2 := (scopeCreateScope beh st1 1 0).1
+    let st3 := (scopeCreateScope beh st2 2 0).1
+    let st3 := updScope st3 3 (fun sc => { sc with disposables := some [5] })
+    let st3 := { st3 with instMeta := fun i => if i = 5 then (9, 1) else (0, 0) }
+    let r := closeScope beh id (closeFuel st3) st3 1
+    let r' := closeScope {} id (closeFuel st3) st3 1
+    (r.2, r.1.log.length - st3.log.length, r'.2) = (true, 1, false) := by decide
 
 end Godi.Props.C12
